@@ -137,6 +137,20 @@ def mps_worker(job: dict) -> dict:
 
         ref.row = row_atom
         ref.mat = mat_atom
+        dmrg = job.get("solver") == "dmrg"
+        if dmrg:
+            evals = [np.linalg.eigvalsh(h) for h in hams]
+            e0 = [float(w[0]) for w in evals]
+            gaps = [float(w[1] - w[0]) if len(w) > 1 else float("inf") for w in evals]
+            ref.norm_budget = 1e-8
+
+            def energy_atom(e: dict) -> bool:
+                k = int(e["ts"])
+                if not (0 <= k < len(e0)):
+                    return True
+                return float(e["energy"]) >= e0[k] - (1e-9 * hnorm + 1e-10)
+
+            ref.energy = energy_atom
         # ---- observable comparison
         budget_state = job.get("budget_c", 5.0) * steps_c * 2 * max(n - 1, 1) * prec + 1e-6
         worst = 0.0
@@ -153,6 +167,52 @@ def mps_worker(job: dict) -> dict:
                     continue
                 st = states[k]
                 H_k = hams[max(k - 1, 0)]
+                if dmrg:
+                    kk = max(k - 1, 0)
+                    if k == 0:
+                        continue   # t = 0: the initial state, no minimisation has happened yet
+                    if tag == "energy":
+                        E = float(np.real(val))
+                        slack = 1e-9 * hnorm + 1e-10
+                        below = e0[kk] - E
+                        worst = max(worst, below / slack if below > 0 else 0.0)
+                        if below > slack:
+                            values_ok = False
+                            why.append(f"energy@{t:.4f}: {E:.10f} below the exact ground energy {e0[kk]:.10f}")
+                        close_bud = 10.0 * 1e-5 + 2 * max(n - 1, 1) * prec * hnorm
+                        if gaps[kk] > 100.0 * close_bud and job.get("max_bond_dim", 1024) >= 2 ** (n // 2):
+                            out.setdefault("gapped", 0)
+                            out["gapped"] += 1
+                            if abs(E - e0[kk]) > close_bud:
+                                values_ok = False
+                                why.append(f"energy@{t:.4f}: |E - E0| = {abs(E - e0[kk]):.3e} > {close_bud:.3e} on a gapped step (gap {gaps[kk]:.3e})")
+                            worst = max(worst, abs(E - e0[kk]) / close_bud)
+                    elif tag == "state":
+                        fs = [f.detach().numpy() for f in val.factors]
+                        vec = dense.mps_to_vec(fs)
+                        nrm = float(np.linalg.norm(vec))
+                        if abs(nrm - 1.0) > 1e-8:
+                            values_ok = False
+                            why.append(f"state@{t:.4f}: norm {nrm}")
+                        c = val.orthogonality_center
+                        canon = c is not None
+                        if canon:
+                            for i, f in enumerate(fs):
+                                if i < c:
+                                    m = f.reshape(-1, f.shape[2])
+                                    canon &= bool(np.allclose(m.conj().T @ m, np.eye(m.shape[1]), atol=1e-8))
+                                elif i > c:
+                                    m = f.reshape(f.shape[0], -1)
+                                    canon &= bool(np.allclose(m @ m.conj().T, np.eye(m.shape[0]), atol=1e-8))
+                        if not canon:
+                            values_ok = False
+                            why.append(f"state@{t:.4f}: not in canonical form around its declared centre {c}")
+                        # the returned state's Rayleigh quotient is the reported energy's subject; also variational:
+                        Evec = float(np.real(np.vdot(vec, hams[kk] @ vec)) / max(nrm**2, 1e-300))
+                        if Evec < e0[kk] - (1e-9 * hnorm + 1e-10):
+                            values_ok = False
+                            why.append(f"state@{t:.4f}: Rayleigh quotient below ground energy")
+                    continue
                 if tag == "state":
                     vec = dense.mps_to_vec([f.detach().numpy() for f in val.factors])
                     vec = vec / np.linalg.norm(vec)
